@@ -202,7 +202,14 @@ func c10RefClient(serverRx uint64, auto bool, clientMaxTx uint64) uint64 {
 // data packets while CanSend and HasPacingBudget allow. Everything sent is acknowledged at once (no
 // loss is ever reported, so no loss compensation applies: the rate enforced is the rate itself).
 // Judged by the clause "the rate reported to the application is the rate actually enforced on the
-// wire": bytes <= burst allowance of the pacer + reported rate x interval (+ one packet for rounding).
+// wire": bytes <= burst allowance of the pacer + reported rate x interval (+ one packet for rounding)
+// + what the pacer forgives: a packet larger than the budget left at that instant empties the
+// budget instead of leaving a debt, so an ACK-only packet (sent regardless of pacing) can exceed the
+// rate by less than its own size, and - the ACK-only traffic being at most half the rate, the budget
+// has recovered by the next one - at most once per data packet that drained the budget in between:
+// ACK-only size x (data packets + 1). (The first thorough run of this part held 1252-byte ACK-only
+// packets to the bound without that term and alarmed on the unchanged tree: a false alarm of the
+// check, corrected here; the seed below stays far outside the bound at the low rates.)
 // Added after the independently seeded change C10-11 (OnPacketSent returned early for
 // non-retransmittable packets, so the wire carried the negotiated rate PLUS the ACK traffic).
 func c10Wire(e *vsched.Exec, side string, cc congestion.CongestionControl, reported uint64, c *c10Case) {
@@ -213,7 +220,7 @@ func c10Wire(e *vsched.Exec, side string, cc congestion.CongestionControl, repor
 		return // the ACK-only traffic alone is not well below the rate: the QUIC layer, not the controller, decides
 	}
 	const data = congestion.InitialPacketSize
-	var wire, acks congestion.ByteCount
+	var wire, acks, nData congestion.ByteCount
 	var pn congestion.PacketNumber
 	start := monotime.Time(time.Second)
 	for tick := 0; tick < c.WireMs; tick++ {
@@ -232,15 +239,17 @@ func c10Wire(e *vsched.Exec, side string, cc congestion.CongestionControl, repor
 			cc.OnPacketSent(now, data, pn, data, true)
 			pn++
 			wire += data
+			nData++
 		}
 	}
 	burst := congestion.ByteCount(10 * data)
 	if b := congestion.ByteCount(reported / 1000 * 4); b > burst {
 		burst = b // 4 x MinPacingDelay worth of the rate
 	}
-	limit := burst + congestion.ByteCount(float64(reported)*float64(c.WireMs)/1000) + data
+	forgiven := congestion.ByteCount(c.AckSize) * (nData + 1)
+	limit := burst + congestion.ByteCount(float64(reported)*float64(c.WireMs)/1000) + data + forgiven
 	if wire > limit {
-		e.Fail("%s: reported fixed rate %d B/s, but the installed controller let %d bytes onto the wire in %d ms (%d of them in ACK-only packets of %d bytes sent every %d ms regardless of pacing, isRetransmittable=false): %.0f B/s, allowed %d bytes (burst %d + rate x interval + one packet): the rate reported to the application is not the rate enforced on the wire",
+		e.Fail("%s: reported fixed rate %d B/s, but the installed controller let %d bytes onto the wire in %d ms (%d of them in ACK-only packets of %d bytes sent every %d ms regardless of pacing, isRetransmittable=false): %.0f B/s, allowed %d bytes (burst %d + rate x interval + one packet + what the pacer forgives oversized ACK-only packets): the rate reported to the application is not the rate enforced on the wire",
 			side, reported, wire, c.WireMs, acks, c.AckSize, c.AckEveryMs, float64(wire)*1000/float64(c.WireMs), limit, burst)
 	}
 }
@@ -572,7 +581,7 @@ func c10Enumerate(sh *evidence.Shard) {
 	p4.Alphabet = map[string]any{"client MaxTx / client MaxRx (= the two fixed rates)": wireRates, "server MaxRx / server MaxTx (caps)": wireCaps,
 		"ACK-only packets (bytes, every ms; isRetransmittable=false, sent regardless of pacing; 0 = none)": wireAcks, "virtual ms driven": wireMs,
 		"send loop": "wakes every 1 ms: the due ACK-only packet first, then full-size data packets while CanSend && HasPacingBudget; no loss reported",
-		"oracle":    "wire bytes <= pacer burst + rate reported to the application x interval + one packet, on each side"}
+		"oracle":    "wire bytes <= pacer burst + rate reported to the application x interval + one packet + ACK-only size x (data packets + 1) (the pacer forgives the part of a packet that exceeds the remaining budget), on each side"}
 	for _, ctx := range wireRates {
 		for _, crx := range wireRates {
 			for _, srx := range wireCaps {
